@@ -130,15 +130,14 @@ def ensure_facts(cfg="default", repo=None, must_compile=True):
                 raise CheckBroken("fact file for crate %s missing after extraction (%s)" % (c, cfg))
         with open(ok_marker, "w") as fh:
             fh.write(str(time.time()))
-        # keep the cache small: drop other trees' facts (keep 3 most recent)
+        # keep the cache small: drop facts of other trees that have not been touched for 3 hours
+        # (never anything recent: another process may be extracting or reading right now)
         try:
-            ents = sorted(
-                (e for e in os.listdir(CACHE) if os.path.isdir(os.path.join(CACHE, e))),
-                key=lambda e: os.stat(os.path.join(CACHE, e)).st_mtime,
-            )
-            for e in ents[:-6]:
-                if e != th:
-                    shutil.rmtree(os.path.join(CACHE, e), ignore_errors=True)
+            now = time.time()
+            for e in os.listdir(CACHE):
+                pth = os.path.join(CACHE, e)
+                if e != th and os.path.isdir(pth) and now - os.stat(pth).st_mtime > 3 * 3600:
+                    shutil.rmtree(pth, ignore_errors=True)
         except OSError:
             pass
         return d
